@@ -9,5 +9,6 @@ CONSTANTS
   MaxForce = 1
   MaxStops = 1
   MaxKills = 0
+  MaxPauses = 0
 INVARIANT FinalizerHeld
 CHECK_DEADLOCK FALSE
